@@ -91,7 +91,7 @@ def expected_reads(call):
     m = call['m']
     return {
         'path': '/r/' + m,
-        'method': 'GET',
+        'method': 'POST' if call.get('bad') else 'GET',
         'query_m': 'q' + m,
         'query_string': 'm=q' + m,
         'hdr': 'h' + m,
@@ -165,6 +165,11 @@ def check_response(ctx, call, app, when):
 
 def environ_for(call):
     m = call['m']
+    if call.get('bad'):
+        # malformed chunked body: reading it raises the process-wide errors_map response (400)
+        import io
+        return make_environ('POST', '/r/' + m, 'm=q' + m, {'X-M': 'h' + m, 'Cookie': 'c=c' + m},
+                            stream=io.BytesIO(b'zz\r\n' + m.encode()), chunked=True)
     return make_environ('GET', '/r/' + m, 'm=q' + m, {'X-M': 'h' + m, 'Cookie': 'c=c' + m})
 
 
@@ -183,6 +188,21 @@ def serve(ctx, call):
     problems = []
     if r.escaped is not None:
         problems.append(f'exception escaped: {type(r.escaped).__name__}: {r.escaped}')
+    elif call.get('bad'):
+        body = ('bad-' + m).encode()
+        if r.code != 400:
+            problems.append(f'status {r.status!r}, expected 400')
+        if r.body != body:
+            problems.append(f'body {r.body[:80]!r}, expected {body!r}')
+        if r.header('X-E') != 'e' + m:
+            problems.append(f'X-E header {r.header("X-E")!r}, expected {"e" + m!r}')
+        if r.header('Content-Length') != str(len(r.body)):
+            problems.append(f'Content-Length {r.header("Content-Length")!r} for {len(r.body)} body bytes')
+        names = sorted(k for k, _ in r.headers)
+        if names != ['Content-Length', 'Content-Type', 'X-E']:
+            problems.append(f'header names {names}')
+        if r.header('Content-Type') != 'text/html; charset=UTF-8':
+            problems.append(f'Content-Type {r.header("Content-Type")!r}')
     else:
         if r.code != exp_status:
             problems.append(f'status {r.status!r}, expected {exp_status}')
@@ -259,6 +279,13 @@ def make_handler(ctx, app):
         if m != call['m']:
             ctx.problem('C10:foreign-request-visible', f'request {call["m"]}: url argument {m!r}')
         check_reads(ctx, call, app, env, 'on entry')
+        if call.get('bad'):
+            for i, op in enumerate(call['ops']):
+                do_op(ctx, call, op, app, env)
+                check_reads(ctx, call, app, env, f'after op {i} {op[0]}')
+            app.request.body.read()      # raises the mapped 400
+            ctx.problem('C10:harness', f'request {call["m"]}: malformed body was accepted')
+            return 'x'
         wrote = False
         ops = call['ops']
         w_at = call.get('write_at', 0)
@@ -277,8 +304,41 @@ def make_handler(ctx, app):
     return handler
 
 
+def make_error_handler(ctx, app):
+    def on400(err):
+        st = _stack()
+        call, env = st[-1]
+        m = call['m']
+        check_reads_bad(ctx, call, app, env)
+        try:
+            seen = sorted(app.response.headers.keys())
+        except Exception as e:   # noqa
+            ctx.problem('C10:response-read-error', f'{m}: reading app.response.headers raised {type(e).__name__}: {e}')
+            seen = []
+        if seen:
+            ctx.problem('C10:foreign-response-visible',
+                        f'request {m} (app {call["app"]}): its 400 handler finds response headers {seen} that neither it nor '
+                        f'the framework set for this request')
+        app.response.headers['X-E'] = 'e' + m
+        return 'bad-' + m
+    return on400
+
+
+def check_reads_bad(ctx, call, app, env):
+    rq = app.request
+    try:
+        got = (rq.path, rq.query.get('m'), rq.headers.get('X-M'), rq.environ is env)
+    except Exception as e:   # noqa
+        ctx.problem('C10:request-read-error', f'{call["m"]} in error handler: {type(e).__name__}: {e}')
+        return
+    m = call['m']
+    if got != ('/r/' + m, 'q' + m, 'h' + m, True):
+        ctx.problem('C10:foreign-request-visible', f'request {m} (app {call["app"]}) in its 400 handler sees {got!r}')
+
+
 def install(ctx, app, idx):
-    app.add_route('/r/<m>', 'GET', make_handler(ctx, app), overwrite=True)
+    app.add_route('/r/<m>', ['GET', 'POST'], make_handler(ctx, app), overwrite=True)
+    app.error(400)(make_error_handler(ctx, app))
 
 
 # ---- generation ------------------------------------------------------------------------------
@@ -304,8 +364,11 @@ def gen_call(rng, n_apps, depth, counter, in_flight=()):
                                           'ops': [], 'write_at': 0}])
         else:
             ops.append([k])
-    return {'app': app, 'm': m, 'status': rng.choice(STATUS_CHOICES), 'ops': ops,
+    call = {'app': app, 'm': m, 'status': rng.choice(STATUS_CHOICES), 'ops': ops,
             'write_at': rng.randrange(len(ops) + 1) if ops else 0}
+    if rng.random() < 0.2:
+        call['bad'] = True       # the request's body is malformed: answered through the shared errors_map response
+    return call
 
 
 def gen_case(rng, tier):
@@ -337,8 +400,7 @@ def setup_worker():
         install(ctx, a, i)
     for i in (0, 1):
         serve(ctx, {'app': i, 'm': 'W%d' % i, 'status': 200, 'ops': [['copy']], 'write_at': 0})
-    if ctx.problems:
-        raise HarnessError(f'warm-up request failed: {ctx.problems[:2]}')
+    # problems met here are not reported: the seeded runs that follow will meet and report them with a replay file
 
 
 def build_apps(ctx, case):
